@@ -1,2 +1,45 @@
-/-! Driver for C09 (stub: not built yet). -/
-def main : IO Unit := pure ()
+import Drivers.Proto
+import PymocaVerif.Model.Connect
+/-! Driver for C09: runs the `Connect` model on the flat connect clauses of one generated model
+    and reports the derived equations and the final connection sets. -/
+open Lean Drivers PymocaVerif.Connect
+
+def parseVar (j : Json) : Except String CVar := do
+  let a ← j.getArr?
+  let n ← (a[0]?.getD Json.null).getStr?
+  let ps ← (← (a[1]?.getD Json.null).getArr?).toList.mapM (·.getStr?)
+  pure { name := n, prefixes := ps }
+
+def parseEdge (j : Json) : Except String Edge := do
+  let pre ← getStr j "pre"
+  let l ← (← getArr j "l").toList.mapM (·.getStr?)
+  let r ← (← getArr j "r").toList.mapM (·.getStr?)
+  let vars ← (← getArr j "vars").toList.mapM parseVar
+  pure { pre := pre, l := l, r := r, vars := vars }
+
+def eqnJson : Eqn → Json
+  | .pot l r => Json.arr #[Json.str "pot", Json.str l, Json.str r]
+  | .sum ops => Json.arr #[Json.str "sum",
+      Json.arr (ops.map fun (n, neg) => Json.arr #[Json.str n, Json.bool neg]).toArray]
+  | .zero v => Json.arr #[Json.str "zero", Json.str v]
+
+def keyJson (k : Key) : Json := Json.arr #[Json.str k.1, Json.bool k.2]
+
+def handle (req : Json) : Except String Json := do
+  let op ← getStr req "op"
+  match op with
+  | "connect.expand" => do
+    let syms ← (← getArr req "flowSyms").toList.mapM (·.getStr?)
+    let edges ← (← getArr req "edges").toList.mapM parseEdge
+    let inp : Input := { flowSyms := syms, edges := edges }
+    match expand inp, finalSets inp with
+    | .ok eqs, .ok sets =>
+      pure (Json.mkObj [("ok", true), ("raised", Json.null),
+        ("eqs", Json.arr (eqs.map eqnJson).toArray),
+        ("sets", Json.arr (sets.map fun s => Json.arr (s.map keyJson).toArray).toArray)])
+    | .error (.unsupportedPrefixes v ps), _ =>
+      pure (Json.mkObj [("ok", true), ("raised", "Exception"), ("var", v), ("prefixes", jstrs ps)])
+    | _, _ => throw "inconsistent-model-results"
+  | o => throw s!"unknown-op {o}"
+
+def main : IO Unit := serve handle
